@@ -37,6 +37,15 @@ pub struct Plan {
     /// was received while it was not the longest chain)
     #[serde(default)]
     pub fork_first: bool,
+    /// at the end of the history the node is given a late competing block for the height it has just purged
+    /// (tip - 2 x genesis period): too old to be kept, so no file of it may be left to be read back as the
+    /// oldest block at the next start-up
+    #[serde(default)]
+    pub stray_at_horizon: bool,
+    /// blocks 6-9 s apart instead of 2.1-2.6 s (heartbeat 1 s): the burn fee decays steeply from block to block,
+    /// so an old block outweighs the blocks that follow it
+    #[serde(default)]
+    pub slow_blocks: bool,
 }
 
 fn gen(seed: u64, index: u64, tier: Tier) -> Plan {
@@ -58,6 +67,8 @@ fn gen(seed: u64, index: u64, tier: Tier) -> Plan {
         chunk,
         per,
         fork_first: rng.chance(1, 2),
+        stray_at_horizon: rng.chance(1, 3),
+        slow_blocks: rng.chance(1, 3),
     }
 }
 
@@ -89,7 +100,7 @@ impl Scenario for C12 {
     fn meta(&self) -> Meta {
         Meta {
             level: "fault_enumeration",
-            rule: "history = producer chain over genesis period 3..6 (rebroadcasts, pruning at depth 2/4/8, purge at 2x genesis period), optionally a side block that either stays a stored side branch or arrives first (so that the main chain later wins by a reorganisation through a block received while it was not the longest), delivered block by block to a real full node (consensus path: mempool queue -> add_blocks_from_mempool -> block file + wallet file writes, purge removes); the simulated disk journals every operation. Crash images = every journal prefix k x tear class of operation k in {absent, created-empty, cut inside the header, half, all-but-last-byte, complete} (process dies, page cache survives: completed writes are durable). Twelve consecutive run indices enumerate the images of one history in chunks of 24. For each image a brand-new node runs the real start-up (Wallet::load, on_init with delete_old_blocks as drawn). Oracle: start-up does not panic; the restarted tip is a block the node had been given before the crash point; its in-window spendable set equals the reference ledger at that tip and the conservation equation holds; after a clean shutdown (full journal) the tip equals the pre-shutdown tip; the node then adopts the next three blocks of the chain. The start-up's own storage operations are journalled as well: for every image one of them (seeded) is the point of a second crash with a seeded tear class, and a third start-up must again come up without panic on a known tip. For the clean image of a history with a side block: after the restart the stored side branch grows by two blocks and overtakes the main chain (a reorganisation onto a block that was not on the longest chain when the node started), then a clean shutdown and start-up must come back on the side branch's tip. After the recovery and the three further blocks a clean shutdown and another start-up must come up on exactly that extended tip. distinct_nontrivial = distinct (history, prefix, tear class) restarted.",
+            rule: "history = producer chain over genesis period 3..6 (rebroadcasts, pruning at depth 2/4/8, purge at 2x genesis period), optionally a side block that either stays a stored side branch or arrives first (so that the main chain later wins by a reorganisation through a block received while it was not the longest), delivered block by block to a real full node (consensus path: mempool queue -> add_blocks_from_mempool -> block file + wallet file writes, purge removes); the simulated disk journals every operation. Crash images = every journal prefix k x tear class of operation k in {absent, created-empty, cut inside the header, half, all-but-last-byte, complete} (process dies, page cache survives: completed writes are durable). Twelve consecutive run indices enumerate the images of one history in chunks of 24. For each image a brand-new node runs the real start-up (Wallet::load, on_init with delete_old_blocks as drawn). Oracle: start-up does not panic; the restarted tip is a block the node had been given before the crash point; its in-window spendable set equals the reference ledger at that tip and the conservation equation holds; after a clean shutdown (full journal) the tip equals the pre-shutdown tip; the node then adopts the next three blocks of the chain. The start-up's own storage operations are journalled as well: for every image one of them (seeded) is the point of a second crash with a seeded tear class, and a third start-up must again come up without panic on a known tip. A third of the histories end with a late competing block for the height the node has just purged (tip - 2 x genesis period). For the clean image of a history with a side block: after the restart the stored side branch grows by two blocks and overtakes the main chain (a reorganisation onto a block that was not on the longest chain when the node started), then a clean shutdown and start-up must come back on the side branch's tip. After the recovery and the three further blocks a clean shutdown and another start-up must come up on exactly that extended tip. distinct_nontrivial = distinct (history, prefix, tear class) restarted.",
             real: &["ConsensusThread::on_init", "Storage::load_block_name_list/load_blocks_from_disk/write_block_to_disk/delete_block_from_disk", "Wallet::load/save", "Blockchain::add_blocks_from_mempool/add_block/delete_blocks/prune", "Block::deserialize_from_net/generate"],
             stubs: &["SimDisk journal + torn-write images (write_value = truncate+write, no fsync/rename, as RustIOHandler)", "SimConfig", "no network"],
             assumptions: &["crash model = process death (no lost un-synced writes); the power-loss model is not demanded by the property", "write errors are not injected (write_block_to_disk panics by design)"],
@@ -137,7 +148,8 @@ impl Scenario for C12 {
                 }
                 let tip_hash = c.tip_rec().hash;
                 let gt = i % 2 == 1 || !c.node.bc.is_golden_ticket_count_valid(tip_hash, i % 2 == 1, false, false);
-                c.extend(txs, gt, 2100 + rng.below(500))?;
+                let dt = if plan.slow_blocks { 6000 + rng.below(3000) } else { 2100 + rng.below(500) };
+                c.extend(txs, gt, dt)?;
                 ledgers.push(c.ledger.clone());
             }
             Ok(())
@@ -168,6 +180,22 @@ impl Scenario for C12 {
         }
         let side_more: Vec<BlockRec> = if side.len() == 3 { side.split_off(1) } else { vec![] };
         side.truncate(1);
+        // a late competing block for height n_blocks+1 - 2*gp (ids are index + 1), built on the main chain's block below it
+        let mut stray: Option<BlockRec> = None;
+        let tip_id = plan.n_blocks as u64 + 1;
+        if plan.stray_at_horizon && tip_id > 2 * plan.gp + 2 {
+            let h = tip_id - 2 * plan.gp; // id of the stray
+            if let Ok(Ok(mut f)) = crate::util::guarded(|| c.fork_at((h - 2) as usize)) {
+                let tag = f.tag();
+                let ts = f.tip_rec().ts + tag;
+                let tx = make_tx(&f.keys[3].clone(), &[], &[(f.keys[3].pk, 0)], ts, &tag.to_le_bytes());
+                let tip_hash = f.tip_rec().hash;
+                let gt = !f.node.bc.is_golden_ticket_count_valid(tip_hash, false, false, false);
+                if let Ok(Ok(i)) = crate::util::guarded(|| f.extend(vec![tx], gt, 2050)) {
+                    stray = Some(f.recs[i].clone());
+                }
+            }
+        }
         // deliver to the node under test with the journal on
         let mut cfg = c.cfg.clone();
         cfg.consensus.prune_after_blocks = plan.prune_after;
@@ -193,6 +221,10 @@ impl Scenario for C12 {
                     deliveries.push(s.clone());
                 }
             }
+        }
+        if let Some(st) = &stray {
+            deliveries.push(st.clone());
+            r.fault("late_block_at_the_purge_horizon", 1);
         }
         // after each delivery: journal length, tip, set of known blocks
         let mut marks: Vec<(usize, [u8; 32], Vec<[u8; 32]>)> = vec![];
@@ -234,6 +266,9 @@ impl Scenario for C12 {
         let rec_of = |h: &[u8; 32]| -> Option<(usize, bool)> {
             if let Some(i) = c.recs.iter().position(|r| &r.hash == h) {
                 return Some((i, true));
+            }
+            if stray.as_ref().map(|s| &s.hash) == Some(h) {
+                return Some((0, false));
             }
             side.iter().position(|r| &r.hash == h).map(|i| (i, false))
         };
@@ -292,6 +327,17 @@ impl Scenario for C12 {
             }
             if !allowed.contains(&tip.1) {
                 r.violate("C12|restart|tip-not-known-before-crash", format!("crash at journal op {} ({}): restarted tip id {} was never given to the node before the crash", k, tear, tip.0));
+                continue;
+            }
+            if clean && tip.1 != final_tip.1 && !side.is_empty() && tip.1 == side[0].hash && side[0].ts < c.recs[plan.n_blocks - 1].ts {
+                // recorded finding: start-up re-runs the fork choice in file-name (timestamp) order. A stored
+                // sibling that carries an earlier timestamp than the main chain's block of its height is then seen
+                // first, and if its burn fee outweighs the main chain's blocks above the fork point (steeply
+                // decaying burn fee: slow main blocks) the longer main chain no longer displaces it
+                r.violate(
+                    "C12|clean-restart|tip-differs|restart-prefers-heavier-earlier-sibling",
+                    format!("after a clean shutdown at id {} the node restarts on the stored sibling at id {} (sibling timestamp {} < main block timestamp {})", final_tip.0, tip.0, side[0].ts, c.recs[plan.n_blocks - 1].ts),
+                );
                 continue;
             }
             if clean && tip.1 != final_tip.1 {
